@@ -19,7 +19,7 @@ RULE = ('(a) XML text generated from the reference grammar without the library (
         'validator, per element name and as whole score-partwise documents, plus the real-world exports shipped with the '
         'repository: parse_musicxml must succeed and re-serialise to the same infoset up to numeric spelling and '
         'surrounding/collapsible whitespace; a failing document is localised to the deepest failing subtree and shrunk '
-        'while it stays reference-valid. (b) structure-aware mutations of those documents (any input): whenever '
+        'while it stays reference-valid. (c) for every element-content type, valid words of <=5 children in every other order (150 per type in quick): nothing may be dropped silently. (b) structure-aware mutations of those documents (any input): whenever '
         'parse_musicxml returns, every element, attribute and text/tail value of the input must appear in the '
         're-serialisation. non-trivial = certified-valid document (a) or a mutation on which the parser returned (b); '
         'distinct = distinct input text')
@@ -233,6 +233,39 @@ def run_shard(shard, tier, seed):
             res = run_valid(el, lib, tmp, viol, c, 'score')
             c['valid_score_' + res] += 1
             valid_docs.append(el)
+        # (c) permuted children: for every element-content type, valid words of <= 5 children (shortest word, transition cover)
+        # with the children in every order: out-of-order input makes the library search for another arrangement of what it
+        # already holds; whatever it answers, nothing may be dropped silently
+        import itertools
+        types = [t for i, t in enumerate(sorted(ref.DFAS)) if i % NSHARDS == shard['slice']]
+        for t in types:
+            root_name = next((n for n in ref.ELEMENT_NAMES if ref.eltype(n) == t), None)
+            if root_name is None:
+                continue
+            d = ref.DFAS[t]
+            words = {tuple(w) for w in d.transition_cover() + [ref.shortest_word(t)] + d.words(3, limit=40) if 2 <= len(w) <= 5}
+            perms = []
+            for w in sorted(words):
+                if len(set(w)) < 2:
+                    continue
+                perms += [(w, p_) for p_ in set(itertools.permutations(w)) if p_ != w]
+            perms.sort()
+            cap = 150 if tier == 'quick' else 2500
+            if len(perms) > cap:
+                perms = rnd.sample(perms, cap)
+            kid_cache = {}
+            for w, p_ in perms:
+                root = ET.Element(root_name)
+                for an, lexv in lib.required_attrs(t).items():
+                    root.set(an, lexv)
+                for sname in p_:
+                    if sname not in kid_cache:
+                        kid_cache[sname] = ref.gen_el(sname, random.Random(sname), (ref.HEIGHT[sname] or 0) + 1,
+                                                      {'pattr': 0.0, 'maxkids': 2})
+                    root.append(copy.deepcopy(kid_cache[sname]))
+                evals += 1
+                res = run_mutant(root, 'permuted-children', lib, tmp, viol, c)
+                c['permuted_' + res] += 1
         # (b) mutations, any input
         nm = 4 if tier == 'quick' else 12
         for el in valid_docs:
